@@ -61,8 +61,10 @@ CHECKS = {
         'independent draws of any law nu, P(redraw loop returns a value in A) = (sum_{k<n} nu(out)^k) nu(in-range and candidate in A), the '
         'stream is exhausted with probability nu(out)^n, the limit is the conditional law nu(. | in range); for standard normal draws and '
         'the model\'s range predicates (|x|<=b, 0<=x<=1) the accepted value has density truncTerm(x, m, s, lo, hi) on [lo, hi] - the very '
-        'function the acceptance rule evaluates (gaussCdf via erf linked to Mathlib\'s gaussianReal), which integrates to one. Tested only: '
-        'that NumPy\'s generator delivers i.i.d. N(0,1) draws (KS test), and the joint law of the five parameters as a product.',
+        'function the acceptance rule evaluates (gaussCdf via erf linked to Mathlib\'s gaussianReal), which integrates to one. Joint law (Props/C06Joint): the '
+        'draws left over by a loop are again i.i.d. and independent of its result, so the probability that shiftSample returns a state in a box tends to the '
+        'integral of transPdf over the box times the mass of the strike map - transition_pdf IS the density of the proposal made (full-tensor and double-couple '
+        'chains); jumpDraw has the product law of its two truncated normals. Tested only: that NumPy\'s generator delivers i.i.d. N(0,1) draws (KS test).',
    note=TB + 'np.random is replaced by prepared streams during a call; reflecting options and the crack+DC proposal are not modelled. Repeated '
         'zero-rate windows square the ratio: positivity is over the reals (floating-point underflow after ~10 such windows is not modelled).',
    technique='Lean 4 proof (stream-consuming samplers, invariant over all rate sequences; measure-theoretic law of the redraw loop under product measures) + differential correspondence',
@@ -80,7 +82,9 @@ CHECKS = {
         'number of steps; finite-state matrix version; and the MODEL\'s acceptMH / transPdf with prior x likelihood satisfy the hypotheses (detailed '
         'balance incl. -inf log-likelihoods from C05, proposal normalised: integral of truncTerm = 1, measurability) over the five Tape coordinates on the '
         'source domain. Tested only: convergence/ergodicity (that a finite chain is close to the posterior) by posterior-agreement statistics; the '
-        'strike kernel is an abstract symmetric normalised kernel; multi-event and trans-dimensional kernels are not instantiated.',
+        'strike kernel is an abstract symmetric normalised kernel. Trans-dimensional sampler (Props/C07TransD): mixtures of kernels in detailed balance keep the target; the jump '
+        'kernel on the two-model space D + DxG keeps the joint target under the reversible-jump balance; with the MODEL\'s jumpQ / acceptJumpUp / acceptJumpDown / transPdf / acceptMH the '
+        'kernel pj*jump + (1-pj)*shift leaves the joint posterior over {double-couple, full tensor} invariant for every number of steps. Multi-event kernels are not instantiated.',
    note=TB + 'Outcomes are steered through the log-likelihoods given to iterate(); sources/likelihoods are opaque tokens in the model.',
    technique='Lean 4 proof (inductive invariant of the run state machine over all event lists; measure-theoretic invariance of the posterior under the Metropolis-Hastings kernel from detailed balance) + event-history correspondence',
    design='5/C07'),
